@@ -156,4 +156,72 @@ def CmdWithin (g : Geom) (tid S n : Nat) (p : Pkt) : Prop :=
       bp + cnt ≤ g.bufferPages ∧ S ≤ fp ∧ fp + cnt ≤ S + n ∧ S + n ≤ g.flashPages
   | none => False
 
+/-! ### reference semantics of retrying and aborting (for scripts without unrelated traffic) -/
+
+/-- every packet that comes back is a well-formed flash-write reply of this target (any status, any code) -/
+def Outcome.Clean (tid : Nat) (o : Outcome) : Prop :=
+  ∀ p, o.reply = some p → ∃ st code, p = wfReply tid st code
+
+def ScriptClean (tid : Nat) (s : List Outcome) : Prop := ∀ o ∈ s, o.Clean tid
+
+/-- "Retry until answered": `refLoop tries pending script` = (number of transmissions, the reply that decided the
+call if one reached the client in time).  Per transmission the client sees the reply still pending from the previous
+attempt (a late one) or else this attempt's reply if it is not late; the first reply seen ends the retrying, but a
+reply seen only after the last permitted transmission counts as no reply. -/
+def refLoop (tid : Nat) : Nat → Option Pkt → List Outcome → Nat × Option Pkt
+  | 0, _, _ => (0, none)
+  | n + 1, pending, s =>
+    let o := (nextOutcome tid s).1
+    let seen := match pending with
+      | some r => some r
+      | none => if o.late then none else o.reply
+    let pending' := match pending with
+      | some _ => none
+      | none => if o.late then o.reply else none
+    match seen with
+    | some r => (1, if n = 0 then none else some r)
+    | none => ((refLoop tid n pending' (nextOutcome tid s).2).1 + 1, (refLoop tid n pending' (nextOutcome tid s).2).2)
+
+/-- one flush: the transmissions of the command, whether it succeeded (decided in time by a status-1 reply), the error
+code the client records, the outcomes left -/
+def refFlush (tid tries bp fp cnt : Nat) (s : List Outcome) : List Pkt × Bool × Int × List Outcome :=
+  let r := refLoop tid tries none s
+  (List.replicate r.1 (writePkt tid bp fp cnt),
+   (match r.2 with | some p => p.data[2]? == some 1 | none => false),
+   (match r.2 with | some p => ((p.data.getD 3 0).toNat : Int) | none => -1),
+   s.drop r.1)
+
+/-- split into consecutive chunks of `k + 1` bytes; the last chunk holds the remaining `0..k` bytes -/
+def chunksOf (k : Nat) : Nat → List UInt8 → List (List UInt8)
+  | 0, l => [l]
+  | f + 1, l => if l.length ≤ k then [l] else l.take (k + 1) :: chunksOf k f (l.drop (k + 1))
+
+def chunks (k : Nat) (l : List UInt8) : List (List UInt8) := chunksOf k l.length l
+
+/-- the bytes of page `i` of the image -/
+def pageBytes (image : List UInt8) (ps i : Nat) : List UInt8 := (image.drop (i * ps)).take ps
+
+/-- Reference run (`k` pages still to upload, `i` uploaded, the last `ctr` of them waiting in buffers `0..ctr-1`):
+the packets transmitted, and the result (`none` = completed, `some code` = aborted with that error code).
+Upload page `i` into buffer `ctr`; when the buffers are full, flush them to flash pages `S+i-ctr ..`; a flush that
+fails ENDS the run: nothing is transmitted after its last attempt.  A final partial flush follows the last page. -/
+def refRun (tid tries K : Nat) (g : Geom) (S : Nat) (image : List UInt8) :
+    Nat → Nat → Nat → List Outcome → List Pkt × Option Int
+  | 0, i, ctr, s =>
+    if ctr = 0 then ([], none)
+    else
+      let f := refFlush tid tries 0 (S + i - ctr) ctr s
+      (f.1, if f.2.1 then none else some f.2.2.1)
+  | k + 1, i, ctr, s =>
+    let loads := loadPkts tid ctr 0 (chunks K (pageBytes image g.pageSize i))
+    if ctr + 1 ≥ g.bufferPages then
+      let f := refFlush tid tries 0 (S + i - ctr) (ctr + 1) s
+      if f.2.1 then
+        (loads ++ f.1 ++ (refRun tid tries K g S image k (i + 1) 0 f.2.2.2).1,
+          (refRun tid tries K g S image k (i + 1) 0 f.2.2.2).2)
+      else (loads ++ f.1, some f.2.2.1)
+    else
+      (loads ++ (refRun tid tries K g S image k (i + 1) (ctr + 1) s).1,
+        (refRun tid tries K g S image k (i + 1) (ctr + 1) s).2)
+
 end CfVerif.C12
